@@ -389,6 +389,7 @@ def _encode(it, a, k, n):
     if cc == "idna":
         it.ctx.assume(z3.InRe(r, z3.Star(_range("\x00", "\x7f"))), "idna-encode:ascii-output")
     if cc in ("utf-8", "utf8"):
+        it.ctx.assume(z3.InRe(r, z3.Star(_range("\x00", "\xff"))), "encode:result-is-bytes")
         it.ctx.assume(z3.Length(r) >= z3.Length(s.z), "utf8-encode:len>=")
         it.ctx.assume((z3.Length(r) == 0) == (z3.Length(s.z) == 0), "utf8-encode:empty-iff-empty")
         # UTF-8 is a character-wise code: a constant ASCII tail (head) of the text is the same tail (head) of its encoding
@@ -427,6 +428,13 @@ def _decode(it, a, k, n):
         if not it.spec and not it.branch(ok, "decode-ascii"):
             it.raise_("UnicodeDecodeError", node=n)
         return VStr(s.z, "str")
+    if cc in ("utf-8", "utf8") and z3.is_app(s.z) and s.z.decl().name() == "py_encode" and s.z.num_args() == 2:
+        # decoding what encode() of the same codec produced gives the text back (trusted fact about the codec),
+        # whatever the error handler
+        enc_codec = concrete_str(s.z.arg(1)) or ""
+        if enc_codec.split(":")[0] in ("utf-8", "utf8") and enc_codec.endswith(":strict"):
+            it.ctx.assume(z3.And(DEC_OK(s.z, z3.StringVal(cc)),
+                                 DEC(s.z, z3.StringVal(cc), z3.StringVal(ce)) == s.z.arg(0)), "utf8:decode-inverts-encode")
     if ce == "strict" and not it.spec:
         if not it.branch(DEC_OK(s.z, z3.StringVal(cc)), "decode-ok"):
             it.raise_("UnicodeDecodeError", node=n)
